@@ -9,6 +9,8 @@ def run(tier):
     cases = isa.gen_int_regs()
     # BMI2/ADX register forms are decided exhaustively by C04; C01 keeps a corner sample
     cases += isa.gen_bmi_regs(corners_only=True, rnd=rnd, frac=0.0)
+    # the same forms written with a (redundant) size keyword in front of a register operand
+    cases += isa.gen_int_regs_kw(rnd, 4000 if tier != "thorough" else 60000)
     frac = 1.0 if tier == "thorough" else 0.1
 
     def combos_for(c):
